@@ -56,7 +56,7 @@ def shards(tier, seed):
             if tier == "quick":
                 k = (seed + idx) % len(mine)
                 mine = (mine[k:] + mine[:k])[:4]
-            out.append(dict(tier=tier, seed=seed * 1000 + idx, idx=idx, devs=mine, ncases=(100 if tier == "quick" else 1200),
+            out.append(dict(tier=tier, seed=seed * 1000 + idx, idx=idx, devs=mine, ncases=(160 if tier == "quick" else 1200),
                             max_items=(48 if tier == "quick" else 100), long_stall=(400 if tier == "quick" else 700), core=[], core_ncases=0))
             idx += 1
     # real-core round trips ride on the three lightest shards (AXI writer: no long consumer stalls)
